@@ -307,6 +307,22 @@ fn suffix_ban(w: &World, foreign: &BlsCache, loc: &mut Local) -> Result<(), (Str
             let spends = vec![Spend { parent: P1, amount: 5, conds: vec![Cond { op: 49, key: w.pks[0].clone(), msg }], quoted: false }];
             let sig = sign_pairs(w, &expected_pairs(&spends, &c));
             require(&format!("unsafe-suffix/{n}"), &spends, &sig, &c, foreign, ok, loc)?;
+            // the ban is a rule about the condition, not about the signature check: the same verdict
+            // when the caller has the signature validated elsewhere (DONT_VALIDATE_SIGNATURE)
+            let tree = drive::output(&spends.iter().map(|s| drive::spend(&s.parent, &s.ph(), s.amount, s.conds_sx())).collect::<Vec<_>>());
+            let mut a = Allocator::new();
+            let node = tree.to_node(&mut a);
+            let f = ConsensusFlags::DONT_VALIDATE_SIGNATURE;
+            let nosig = Signature::default();
+            for (path, got) in [
+                ("parse_spends/dont-validate", parse_spends::<EmptyVisitor>(&a, node, u64::MAX / 4, 0, f, &nosig, None, &c).is_ok()),
+                ("parse_spends(mempool)/dont-validate", parse_spends::<MempoolVisitor>(&a, node, u64::MAX / 4, 0, f, &nosig, None, &c).is_ok()),
+            ] {
+                loc.evals += 1;
+                if got != ok {
+                    return Err((format!("unsafe-suffix/{n}/{path}"), format!("AGG_SIG_UNSAFE message shape {n} for opcode {op}'s constant: {path} returned {got}, expected {ok}")));
+                }
+            }
         }
     }
     Ok(())
@@ -387,7 +403,7 @@ fn run(rep: &Report) {
     let pks = sks.iter().map(|k| k.public_key().to_bytes().to_vec()).collect();
     let w = World { sks, pks };
     let thorough = rep.tier == mc::Tier::Thorough;
-    rep.set_rule("base cases: 8 AGG_SIG opcodes x 23 coin amounts (every minimal-encoding length class boundary) x message of 1 byte (quick; '' and 32 bytes on one amount) / {'', 1, 32, 1024 bytes} (thorough) with a second fixed AGG_SIG_UNSAFE pair; each signed by the harness over its own rule table and run through parse_spends (block and mempool visitor; no / cold / warm / foreign-warm BlsCache), run_block_generator2 and validate_clvm_and_signature; pairs reported by run_spendbundle and the text from make_aggsig_final_message compared with the rule table; then 17 single-point tamperings per base case, each expected to be rejected exactly when it changes the signed (key, message) multiset; AGG_SIG_UNSAFE suffix ban: 7 constants x 6 message shapes; bundles without any AGG_SIG condition (1 and 2 spends) x {identity, generator, 2*generator, an unrelated real signature} on every path (only the identity signs the empty multiset); 3 pair lists containing the infinity key through BlsCache::aggregate_verify cold / warm / warm again against the cache-free verdict; thorough: all 64 ordered opcode pairs over two spends. distinct = distinct (case, tampering)");
+    rep.set_rule("base cases: 8 AGG_SIG opcodes x 23 coin amounts (every minimal-encoding length class boundary) x message of 1 byte (quick; '' and 32 bytes on one amount) / {'', 1, 32, 1024 bytes} (thorough) with a second fixed AGG_SIG_UNSAFE pair; each signed by the harness over its own rule table and run through parse_spends (block and mempool visitor; no / cold / warm / foreign-warm BlsCache), run_block_generator2 and validate_clvm_and_signature; pairs reported by run_spendbundle and the text from make_aggsig_final_message compared with the rule table; then 17 single-point tamperings per base case, each expected to be rejected exactly when it changes the signed (key, message) multiset; AGG_SIG_UNSAFE suffix ban: 7 constants x 6 message shapes (also with DONT_VALIDATE_SIGNATURE); bundles without any AGG_SIG condition (1 and 2 spends) x {identity, generator, 2*generator, an unrelated real signature} on every path (only the identity signs the empty multiset); 3 pair lists containing the infinity key through BlsCache::aggregate_verify cold / warm / warm again against the cache-free verdict; thorough: all 64 ordered opcode pairs over two spends. distinct = distinct (case, tampering)");
     rep.assume("the harness signer is chia_bls::sign / aggregate with the harness's own secret keys (covered by C15/C16); forgeries that are not single-point edits are out of scope");
     // a cache warmed by an unrelated valid bundle
     let foreign = BlsCache::new(NonZeroUsize::new(1000).unwrap());
